@@ -717,7 +717,7 @@ Proof.
     unfold hbind. pose proof (chip_loop_safe cd (S (length data)) (S (length data)) n s ltac:(lia) ltac:(lia)) as H2.
     destruct (chip_loop cd (S (length data)) (S (length data)) n s) as [[l s']| |]; try discriminate. contradiction. }
   destruct (sub =? 3).
-  { unfold parse_callout_ffdc. destruct (utf8_decode (rstrip_nul data)); discriminate. }
+  { unfold parse_callout_ffdc, ffdc_of_text. destruct (utf8_decode (rstrip_nul data)) as [s0|]; [destruct (JsonLoads.loads s0)|]; discriminate. }
   destruct (sub =? 4).
   { unfold parse_hb_scratch_regs.
     assert (S0 : safe (ca <~ hlift (get_mem 4);; cv <~ hlift (get_mem 4);; sa <~ hlift (get_mem 8);; sv <~ hlift (get_mem 8);;
@@ -737,7 +737,7 @@ Qed.
 (* C20_ffdc                                                            *)
 
 Theorem ffdc_ok cd version t b k : utf8_encode t = Some b -> ends_nul t = false ->
-  oe500_ud cd 3 version (b ++ repeat 0 k) = HwOk (ffdc_render t).
+  oe500_ud cd 3 version (b ++ repeat 0 k) = ffdc_render t.
 Proof.
   intros He Hn. unfold oe500_ud. cbn [N.eqb Pos.eqb]. unfold parse_callout_ffdc.
   rewrite rstrip_nul_padding by (rewrite (utf8_encode_ends_nul t b He); assumption).
